@@ -37,4 +37,57 @@ theorem div_guard_eq (it : Int) (k : Nat) : div_guard it (k : Int) = evalGuard {
   · simp [h]; omega
   · simp [h]; omega
 
+/-! ### between iterations -/
+
+/-- the statements of `validation_loop` / `evaluate` / `reconstruct_volumes` / `checkpoint_model_at_interval` /
+`Checkpointer.save` / `write_to_logs…` / `checkpoint_and_write_to_logs` / `log_first_training_example_and_model` and of the
+prologue of `Engine.train` that touch `.grad`, optimiser, scheduler or scaler = the table `C16E.history` interprets -/
+theorem between_table_eq : Gen.C16.betweenTable = C16E.table := by decide
+
+/-- … i.e. none, except the prologue's `optimizer.zero_grad()` -/
+theorem between_table_wf : C16E.wfBetween Gen.C16.betweenTable = true := by decide
+
+/-- first-example logging and `start_with_validation` precede `_do_iteration`; checkpoint, log write and validation follow
+`lr_scheduler.step()`; nothing in between -/
+theorem loop_calls_eq :
+    preCalls = C16E.preOrder ∧ midCalls = [] ∧ postCalls = C16E.postOrder := by decide
+
+/-- `start_iter = checkpoint["iteration"] + 1` (and nothing else happens to `start_iter` before `training_loop`) -/
+theorem resume_start_eq (label k : Int) : resume_start label k = C16E.resumeStart label k := by
+  first
+    | rfl
+    | (simp only [resume_start, C16E.resumeStart]; omega)
+
+theorem guard_core16 (it c total : Nat) :
+    (decide ((it : Int) ≥ 5) && (Int.fmod (it : Int) (c : Int) == 0 || (it : Int) + 1 == (total : Int)))
+      = (decide (it ≥ 5) && (it % c == 0 || it + 1 == total)) := by
+  rw [Int.fmod_eq_emod_of_nonneg _ (Int.natCast_nonneg c)]
+  have e : (it : Int) % (c : Int) = ((it % c : Nat) : Int) := by simp
+  rw [e]
+  have h1 : (decide ((it : Int) ≥ 5)) = decide (it ≥ 5) := by
+    by_cases h : it ≥ 5
+    · simp [h]; omega
+    · simp [h]; omega
+  have h2 : ((((it % c : Nat) : Int)) == 0) = (it % c == 0) := by
+    cases it % c with
+    | zero => simp
+    | succ n => simp; omega
+  have h3 : (((it : Int) + 1) == (total : Int)) = (it + 1 == total) := by
+    rw [Bool.eq_iff_iff]
+    simp only [beq_iff_eq]
+    omega
+  rw [h1, h2, h3]
+
+/-- `validate_model_at_interval`: which iterations are followed by a validation round -/
+theorem val_guard_eq (it vs total : Nat) : val_guard (it : Int) (vs : Int) (total : Int) = C16E.valGuard it vs total := by
+  simp only [val_guard, C16E.valGuard]
+  exact guard_core16 it vs total
+
+/-! ### mixed precision -/
+
+/-- order and guards of `div_` / `unscale_` / `clip_grad_norm_` / `scaler.step` / `scaler.update` in the step branch -/
+theorem amp_table_eq : Gen.C16.ampTable = C16E.ampTable := by decide
+
+theorem amp_table_wf : C16E.wfAmp Gen.C16.ampTable = true := by decide
+
 end DirectVerif.Bridge.C16
